@@ -4,7 +4,7 @@ namespace LV.Driver.Sched
 open LV LV.Driver LV.PoolLts
 
 def showSEv : SEv → String
-  | .ehlo => "E" | .noop => "N" | .mail i => s!"Ms{i}" | .rcpt => "R" | .rcptRej => "Rx" | .rcptTemp => "Rt" | .data => "D"
+  | .ehlo => "E" | .noop => "N" | .mail i => s!"Ms{i}" | .rcpt => "R" | .rcptRej => "Rx" | .rcptTemp => "Rt" | .data => "D" | .dataTemp => "Dt"
   | .commit i k => s!"C.s{i}.{k}" | .quit => "Q" | .eof => "Z" | .kill => "K"
 
 def showRes : Res → String
@@ -21,6 +21,7 @@ def parseFaults (s : String) : Option (List Plan) :=
         if f.startsWith "d" then some (acc.modify c fun p => { p with dropAfter := some n })
         else if f.startsWith "r" then some (acc.modify c fun p => { p with rejectRcpt := some n })
         else if f.startsWith "t" then some (acc.modify c fun p => { p with tempRcpt := some n })
+        else if f.startsWith "a" then some (acc.modify c fun p => { p with tempData := some n })
         else if f.startsWith "x" then some (acc.modify c fun p => { p with noop421 := some n })
         else if f.startsWith "s" then some (acc.modify c fun p => { p with slowNoop := some n })
         -- a late answer to the end of data (tokio runs only): the tokio client has no deadline, nothing changes but the time
@@ -91,6 +92,8 @@ where
     | "Rx" :: rest' =>
       (match rest' with | [] | ["Q"] | ["Q", "Z"] | ["Z"] => none | _ => some "connection-used-after-a-failed-command")
     | "Rt" :: rest' =>
+      (match rest' with | [] | ["Q"] | ["Q", "Z"] | ["Z"] => none | _ => some "connection-used-after-a-failed-command")
+    | "R" :: "Dt" :: rest' =>
       (match rest' with | [] | ["Q"] | ["Q", "Z"] | ["Z"] => none | _ => some "connection-used-after-a-failed-command")
     | _ => some "incomplete-or-interleaved-transaction"
 
